@@ -37,8 +37,10 @@ func modelsC03(tier string) ([]*PktModel, []int) {
 	depth := []int{7, 6}
 	if tier == "thorough" {
 		depth = []int{10, 9}
-		models = append(models, withCleans(core2("core2-cleans", props, "try"), 3))
-		depth = append(depth, 10)
+		core4 := core3("core4", props, "try")
+		core4.Names = []string{A, B, C, D}
+		models = append(models, withCleans(core2("core2-cleans", props, "try"), 3), withCleans(core3("core3-cleans", props, "try"), 2), core4)
+		depth = append(depth, 10, 8, 7)
 	}
 	return models, depth
 }
@@ -61,7 +63,7 @@ func modelsC13(tier string) ([]*PktModel, []int) {
 	models := []*PktModel{core2("core2", props, "try"), core3("core3", props, "try"), nft, core4}
 	depth := []int{6, 6, 5, 5}
 	if tier == "thorough" {
-		depth = []int{9, 9, 7, 7}
+		depth = []int{10, 10, 8, 8}
 	}
 	return models, depth
 }
